@@ -4,7 +4,7 @@ Model:    lean/EaselModel/Msafile/*  (readers on the abstract LF/CRLF line reade
 Theorems: lean/EaselModel/Props/C01.lean
 Harness:  harness/h_msafile.c (real readers, ASan+UBSan+LSan, memory / file / slurped file / mmap / stream with small pages)
 """
-import os, re
+import os, re, gzip
 from vlib.engine import Prop, Failure
 from props import msagen as G
 from props import c01_autogen as AUTOGEN
@@ -47,7 +47,7 @@ class C01(Prop):
         "selexConfigs_valid", "selex_total", "selex_no_fault", "selex_eformat_has_message", "selex_ok_wellformed", "selex_read_all_total",
         "stoConfigs_valid", "stockholm_total", "stockholm_total_rest", "stockholm_no_fault", "stockholm_eformat_has_message", "stockholm_ok_wellformed",
         "sto_growth_keeps_lens", "sto_growth_keeps_ogr_slot", "sto_expandseq_ogr",
-        "open_by_name_total", "open_gz_name", "suffix_gz_one_level", "stockholmV_erase", "stockholmV_total", "stockholmV_total_rest", "stockholmV_ok_wellformed", "opened_readV_good",
+        "open_by_name_total", "open_gz_name", "suffix_gz_one_level", "open_gz_total", "open_gz_as_plain", "stockholmV_erase", "stockholmV_total", "stockholmV_total_rest", "stockholmV_ok_wellformed", "opened_readV_good",
         "cfgOf_valid", "opened_cfg_valid", "opened_read_good", "guess_no_fault", "open_total", "open_total_fmtd", "auto_total", "open_status_documented")] + [
         "EaselModel.Msafile.openModelW_zero", "EaselModel.Msafile.openModelW_auto", "EaselModel.Msafile.openModelW_no_fault",
         "EaselModel.Msafile.guessFormat_no_fault", "EaselModel.Msafile.guessAlphabet_no_fault", "EaselModel.Msafile.checkSeqUnknown_no_fault",
@@ -59,7 +59,7 @@ class C01(Prop):
         "EaselModel.Msafile.expandAll_inv", "EaselModel.Msafile.pdExpandSeq_sqlen", "EaselModel.Msafile.pdExpandSeq_perLen", "EaselModel.Msafile.pdExpandSeq_ogrLen",
         "EaselModel.Msafile.pdExpandSeq_rest", "EaselModel.Msafile.msaExpand_rows", "EaselModel.Msafile.msaExpand_gr",
         "EaselModel.Msafile.stockholmReadV_erase", "EaselModel.Msafile.patchMsa_wellFormed", "EaselModel.Msafile.stockholmReadV_good",
-        "EaselModel.Msafile.fmtBySuffix_gz", "EaselModel.Msafile.fmtBySuffix_gz_same", "EaselModel.Msafile.openModelW_name", "EaselModel.Msafile.openByName_enotfound_msg", "EaselModel.Msafile.openByName_enotfound_iff", "EaselModel.Msafile.stockholmReadV_ok", "EaselModel.Msafile.stockholmReadV_rest", "EaselModel.Msafile.Opened.readV_good"]
+        "EaselModel.Msafile.openGz_efail_msg", "EaselModel.Msafile.fmtBySuffix_gz", "EaselModel.Msafile.fmtBySuffix_gz_same", "EaselModel.Msafile.openModelW_name", "EaselModel.Msafile.openByName_enotfound_msg", "EaselModel.Msafile.openByName_enotfound_iff", "EaselModel.Msafile.stockholmReadV_ok", "EaselModel.Msafile.stockholmReadV_rest", "EaselModel.Msafile.Opened.readV_good"]
     claimed = True
     technique = ("Lean 4 proof (totality, fault-freedom and well-formedness of an executable line-by-line model of the alignment readers, bounds-checked "
                  "auxiliary arrays) + exact differential correspondence of the model with the ASan/UBSan/LSan-built readers + property monitors on all ten formats")
@@ -112,7 +112,7 @@ class C01(Prop):
     assumptions = ["allocation never fails (eslEMEM paths not modelled)",
                    "glibc strtod in the C locale converts the longest valid prefix, correctly rounded to nearest-even (the model IS correct rounding in integer arithmetic); "
                    "confirmed bit for bit by the differential run on every generated token, not proved about glibc; NaN payloads canonicalised",
-                   "esl_msafile_Open by name: what the file system answers is a parameter of the model (PathKind); the .gz pipe and stdin '-' are not modelled",
+                   "esl_msafile_Open by name: what the file system answers (PathKind) and what `gzip -dc` does on a .gz name (GzKind: fails, or delivers bytes) are parameters of the model; stdin '-' and a gzip that fails after more than a page of output are not modelled",
                    "C locale ctype (isspace/isgraph/isalpha on bytes 0..127; bytes >= 0x80 are not space/graph/alpha)",
                    "leaks are outside the model: LeakSanitizer per operation in the harness is support, not proof",
                    "alignment sizes fit C int / int64_t (inputs explored up to 64 KiB); residue counts of the alphabet guessers fit int (x = ct[...] is an int) and n < 2^50 (0.02*n exact enough)"]
@@ -356,6 +356,24 @@ class C01(Prop):
             if tail.endswith(".gz") and rng.random() < 0.5: ops.append(op(tail[:-3]))       # open_gz_name: the same answer (unless the name ends in .gz.gz)
             stats["kinds"]["named"] = stats["kinds"].get("named", 0) + 1
             out.append({"name": "named%d" % len(out), "ops": ops, "sfx": tail})
+        # 3l. esl_msafile_Open() on a real <name>.<sfx>.gz: gzip data (read through the `gzip -dc` pipe, suffix before .gz as format hint),
+        #     or something gzip refuses (plain text, random bytes, truncated gzip data of a small file): eslFAIL with a message
+        for i in range(60 if quick else 800):
+            d, b = rng.choice(pool)
+            data = b if rng.random() < 0.7 else G.mutate(rng, b, allfiles)
+            own = [f for f in ALL_FORMATS if G.FMT_DIR[f] == d]
+            f = rng.choice(own + ["auto", "auto", "auto"]); abc = rng.choice(["text", "guess", "amino", "dna"])
+            sfx = rng.choice(["sto", "pfam", "afa", "a2m", "slx", "pb", "phy", "phys", "txt", "dat"])
+            z = gzip.compress(data, 6, mtime=0)
+            r = rng.random()
+            if r < 0.7 and len(data) > 0: op = "openerr what=gz fmt=%s abc=%s sfx=%s hex=%s unz=%s" % (f, abc, sfx, G.hx(z), G.hx(data))
+            else:
+                small = gzip.compress(data[:2000], 6, mtime=0)
+                bad = rng.choice([data[:3000] or b"x", bytes(rng.randrange(256) for _ in range(rng.randrange(1, 200))), small[:rng.randrange(1, len(small))], small[:-4], b"\x1f\x8b"])
+                if bad[:2] == b"\x1f\x8b" and bad == small: bad = small[:-1]
+                op = "openerr what=gz fmt=%s abc=%s sfx=%s hex=%s" % (f, abc, sfx, G.hx(bad))
+            stats["kinds"]["gzpipe"] = stats["kinds"].get("gzpipe", 0) + 1
+            out.append({"name": "gzpipe%d" % len(out), "ops": [op], "sfx": sfx})
         # 4. raw bytes
         for _ in range(n_raw):
             emit("raw", G.raw_bytes(rng), rng.choice(ALL_FORMATS + [None]))
@@ -428,7 +446,13 @@ class C01(Prop):
                 return Failure("monitor", "unparsable harness answer for %s: %s" % (what, l[:200]))
             if op.startswith("openerr"):
                 what = "esl_msafile_Open by name, what=%s fmt=%s abc=%s" % (kv.get("what"), kv.get("fmt"), kv.get("abc"))
-                if kv.get("what") != "envfile":
+                if kv.get("what") == "gz" and kv.get("unz") is None:
+                    # documented: eslFAIL (the gzip -dc pipe did not succeed), afp returned in an error state carrying the message
+                    if l.replace(" leak", "") != "open=fail:msg":
+                        return Failure("monitor", "a .gz file that gzip refuses must give eslFAIL with afp in an error state and a message, got '%s' (%s)" % (l[:120], what))
+                    if " leak" in l: return Failure("monitor", "memory leaked on the eslFAIL path (%s)" % what, key=LEAK_KEY)
+                    continue
+                if kv.get("what") not in ("envfile", "gz"):
                     # documented: eslENOTFOUND, afp returned in an error state carrying the message, afp->abc NULL
                     if l.replace(" leak", "") != "open=enotfound:msg":
                         return Failure("monitor", "a name that is no regular file must give eslENOTFOUND with afp in an error state and a message, got '%s' (%s)" % (l[:120], what))
